@@ -1226,3 +1226,156 @@ func (m *Model) RunErrSameFile(s *Sink, rule string) {
 		s.Undecided(rule, "ast.Program linking errors", "-", "expected at least 2 errors built in a method of ast.Program that links another program in (ApplyComponent was the confirmed instance), found %d", n)
 	}
 }
+
+// RunProgPathPairs — R-ERRLINE (pairing): a program and the path of its file travel together. A function that builds
+// errors with a path parameter S and lines taken from the nodes of a program parameter X is given, at every call site,
+// a program and a path that belong together: when the program handed in was parsed right there from the file z
+// (`prog, … := parseProgram(z)`), the path handed in is z. A loader that resolves the components of a component
+// file by calling itself with the component's program and the *outer* file's path reports faults found in the
+// component file with the path of the page that pulled it in.
+func (m *Model) RunProgPathPairs(s *Sink, rule string) {
+	progT := m.namedType("ast", "Program")
+	if progT == nil {
+		s.Undecided(rule, "ast.Program", "-", "not found")
+		return
+	}
+	isProg := func(t types.Type) bool {
+		p, ok := t.(*types.Pointer)
+		return ok && types.Identical(p.Elem(), progT)
+	}
+	var fns []*ssa.Function
+	for _, fn := range m.ModFns {
+		if fn.Blocks == nil {
+			continue
+		}
+		if sp := shortPkg(fnPkgPath(fn)); sp != "textwire" && sp != "ast" {
+			continue
+		}
+		fns = append(fns, fn)
+	}
+	// the parameter a value is reached from
+	var rootParam func(v ssa.Value, d int) *ssa.Parameter
+	rootParam = func(v ssa.Value, d int) *ssa.Parameter {
+		for i := 0; i < 24 && d < 6; i++ {
+			switch x := v.(type) {
+			case *ssa.Parameter:
+				return x
+			case *ssa.UnOp:
+				v = x.X
+			case *ssa.FieldAddr:
+				v = x.X
+			case *ssa.Field:
+				v = x.X
+			case *ssa.IndexAddr:
+				v = x.X
+			case *ssa.Index:
+				v = x.X
+			case *ssa.Extract:
+				v = x.Tuple
+			case *ssa.Next:
+				v = x.Iter
+			case *ssa.Range:
+				v = x.X
+			case *ssa.Lookup:
+				v = x.X
+			case *ssa.MakeInterface:
+				v = x.X
+			case *ssa.TypeAssert:
+				v = x.X
+			case *ssa.Call:
+				if x.Call.IsInvoke() {
+					v = x.Call.Value
+				} else if len(x.Call.Args) > 0 && x.Call.StaticCallee() != nil && x.Call.StaticCallee().Signature.Recv() != nil {
+					v = x.Call.Args[0]
+				} else {
+					return nil
+				}
+			default:
+				return nil
+			}
+		}
+		return nil
+	}
+	// bound pairs: (index of the program parameter, index of the path parameter)
+	type pair struct{ x, s int }
+	bound := map[*ssa.Function][]pair{}
+	paramIdx := func(fn *ssa.Function, p *ssa.Parameter) int {
+		for i, q := range fn.Params {
+			if q == p {
+				return i
+			}
+		}
+		return -1
+	}
+	for _, fn := range fns {
+		for _, b := range fn.Blocks {
+			for _, in := range b.Instrs {
+				c, ok := in.(*ssa.Call)
+				if !ok || c.Call.StaticCallee() == nil || shortPkg(fnPkgPath(c.Call.StaticCallee())) != "fail" || len(c.Call.Args) < 3 {
+					continue
+				}
+				name := canonFnName(c.Call.StaticCallee())
+				li, pi := 0, 1
+				if name == "FromError" {
+					li, pi = 1, 2
+				} else if name != "New" {
+					continue
+				}
+				sp, isSP := c.Call.Args[pi].(*ssa.Parameter)
+				if !isSP || sp.Parent() != fn {
+					continue
+				}
+				xp := rootParam(c.Call.Args[li], 0)
+				if xp == nil || xp.Parent() != fn || !isProg(xp.Type()) {
+					continue
+				}
+				pr := pair{paramIdx(fn, xp), paramIdx(fn, sp)}
+				dup := false
+				for _, q := range bound[fn] {
+					if q == pr {
+						dup = true
+					}
+				}
+				if !dup {
+					bound[fn] = append(bound[fn], pr)
+				}
+			}
+		}
+	}
+	nSites := 0
+	for _, fn := range fns {
+		for _, b := range fn.Blocks {
+			for _, in := range b.Instrs {
+				c, ok := in.(*ssa.Call)
+				if !ok || c.Call.StaticCallee() == nil {
+					continue
+				}
+				g := c.Call.StaticCallee()
+				for _, pr := range bound[g] {
+					if pr.x >= len(c.Call.Args) || pr.s >= len(c.Call.Args) {
+						continue
+					}
+					x, y := c.Call.Args[pr.x], c.Call.Args[pr.s]
+					ex, isEx := x.(*ssa.Extract)
+					if !isEx || ex.Index != 0 {
+						continue
+					}
+					pc, isPC := ex.Tuple.(*ssa.Call)
+					if !isPC || pc.Call.StaticCallee() == nil || len(pc.Call.Args) != 1 || !isStringT(pc.Call.Args[0].Type()) || !m.InModule(pc.Call.StaticCallee()) {
+						continue
+					}
+					nSites++
+					key := fmt.Sprintf("%s|the program handed to %s comes with the path of its own file", fnKey(fn), canonFnName(g))
+					if pc.Call.Args[0] == y {
+						s.OK(rule, key, m.InstrPos(c), "the program was parsed from the very path that is handed in with it")
+					} else {
+						s.Violation(rule, key, m.InstrPos(c), "%s hands %s the program it parsed from %s together with the path %s: %s reports what it finds in that program with its lines and the other file's path", fnKey(fn), canonFnName(g), valueDesc(pc.Call.Args[0]), valueDesc(y), canonFnName(g))
+					}
+				}
+			}
+		}
+	}
+	if nSites < 1 {
+		s.Undecided(rule, "program/path pairs", "-", "no call was found that hands a freshly parsed program and a path to a function that reports errors with them (parsePrograms -> applyComponentToProgram was the confirmed instance)")
+	}
+}
